@@ -353,13 +353,14 @@ func (h *recHook) OnPacketRead(cl *mqtt.Client, pk packets.Packet) (packets.Pack
 	return pk, nil
 }
 
-// claim returns the not yet claimed client objects whose remote address is remote
-func (h *recHook) claim(remote string) []*mqtt.Client {
+// claim returns the not yet claimed client objects of listener lid whose remote address is remote (the same local port can
+// be in use for a connection to the TCP listener and one to the WebSocket listener at the same time)
+func (h *recHook) claim(remote, lid string) []*mqtt.Client {
 	h.mu.Lock()
 	defer h.mu.Unlock()
 	var out []*mqtt.Client
 	for cl := range h.byCl {
-		if !h.claimed[cl] && cl.Net.Remote == remote {
+		if !h.claimed[cl] && cl.Net.Remote == remote && cl.Net.Listener == lid {
 			h.claimed[cl] = true
 			out = append(out, cl)
 		}
@@ -563,12 +564,12 @@ func runWS(e *brokerEnv, phases []wsPhase, frames [][]wsFrame, expectClose bool)
 		default:
 		}
 	}
-	mine := e.hook.claim(local)
+	mine := e.hook.claim(local, "ws")
 	c.Close()
 	<-gone
 	time.Sleep(2 * time.Millisecond)
 	if len(mine) == 0 { // the broker had not read anything when the connection was closed: whatever it reads now is still ours
-		mine = e.hook.claim(local)
+		mine = e.hook.claim(local, "ws")
 	}
 	mu.Lock()
 	defer mu.Unlock()
@@ -643,12 +644,12 @@ func runTCP(e *brokerEnv, phases []wsPhase) (reply []byte, complete bool, pkts [
 			break
 		}
 	}
-	mine := e.hook.claim(local)
+	mine := e.hook.claim(local, "tcp")
 	c.Close()
 	<-gone
 	time.Sleep(2 * time.Millisecond)
 	if len(mine) == 0 {
-		mine = e.hook.claim(local)
+		mine = e.hook.claim(local, "tcp")
 	}
 	mu.Lock()
 	defer mu.Unlock()
